@@ -86,29 +86,65 @@ def run(ctx):
             ok = any(o[0] == "payload" and o[1] == "Some" and opts_field(o[2], "segments") for o in ops)
         run.inst("C11.B2", "segments-honoured", ok, why + " (must be options.segments when present)", where(sp[0].span))
         run.inst("C11.B2", "split-own-pentagon", pentagon_of_decoded(sp[0].args[0]), "split applies to %s" % fmt(sp[0].args[0]), where(sp[0].span))
-    # B3
+    # B3: the vector handed to normalize_longitudes is a length- and order-preserving image of the split pentagon's vertices
     lps = [l for l in loops_of(ft) if l.next]
-    stage_ok = 0
-    for lp in lps:
-        ps = [c for c in ft.calls() if c.block in lp.body and c.callee and c.callee.endswith("Vec::push")]
-        if len(ps) != 1:
-            run.bad("C11.B3", "stage@bb%d" % lp.head, "loop has %d pushes (expected one per element)" % len(ps), w)
-            continue
-        c = ps[0]
-        ev = every_iteration(ft, lp, c.block)
-        uses_item = any(strip_site(x) == strip_site(lp.item) for x in walk(c.args[1]))
-        early = [(b, s) for b, s in lp.exits if b != lp.item_switch and ft.blocks[s]["term"]["k"] != "unreachable"]
-        # early exits must leave the function with Err (the `?` on the projection), never continue with a short vector
-        bad_early = []
-        for b, s in early:
-            reach = ft.cfg.reachable_from(s)
-            rets = [t for rb in ft.return_blocks() if rb in reach for t in [ft.return_term(rb)]]
-            if any(c2.block in reach for c2 in ft.calls() if c2.callee and (c2.callee == NORM or c2.callee.endswith("Vec::push"))):
-                bad_early.append((b, s))
-        run.inst("C11.B3", "stage:%s" % fmt(lp.source)[:60], ev and uses_item and not bad_early,
-                 "one push per element (every iteration: %s, value derived from the element: %s, early exits that keep going: %s)" % (ev, uses_item, bad_early), where(c.span))
-        stage_ok += 1
-    run.floor("C11.B3", "map-like stages in cell_to_boundary", stage_ok, 2)
+    VERTS = "a5::geometry::pentagon::PentagonShape::get_vertices_vec"
+    norm_calls = [c for c in ft.calls() if c.callee == NORM]
+    if len(norm_calls) != 1:
+        run.bad("C11.B3", "ring-length-preserved", "expected one normalize_longitudes call, found %d" % len(norm_calls), w)
+    else:
+        t = norm_calls[0].args[0]
+        stages, why, okc = [], None, False
+        for _ in range(40):
+            t = peel(t)
+            if t[0] == "call" and t[1] == VERTS:
+                inner = peel(t[2][0])
+                okc = inner[0] == "call" and inner[1] == SPLIT
+                why = None if okc else "vertices are taken from %s, not from the split pentagon" % fmt(inner)[:80]
+                break
+            if t[0] == "payload" and t[1] in ("Ok", "Some"):
+                t = t[2]
+                continue
+            if t[0] == "call" and isinstance(t[1], str) and t[2]:
+                short = t[1].split("::")[-1]
+                if short in ("collect", "into_iter", "iter", "copied", "cloned", "deref", "as_slice", "to_vec", "branch"):
+                    t = t[2][0]
+                    continue
+                if short == "map" and len(t[2]) == 2:
+                    stages.append("map@%s" % fmt(t[2][1])[:40])
+                    t = t[2][0]
+                    continue
+                why = "stage %s is not known to keep one output per input" % short
+                break
+            if t[0] in ("phi", "escaped"):
+                key2 = "_%d" % (t[3] if t[0] == "phi" else t[1])
+                ps = pushes_to(ft, key2)
+                others = [c for c in mutators_of(ft, key2) if c not in ps]
+                lp = [l for l in lps if len(ps) == 1 and ps[0].block in l.own]
+                if len(ps) != 1 or others or len(lp) != 1 or not ps[0].callee.endswith("Vec::push"):
+                    why = "vector %s is filled by %d push site(s) and touched by %s - not one push per element" % (key2, len(ps), sorted({c.callee.split("::")[-1] for c in others}))
+                    break
+                lp, c = lp[0], ps[0]
+                ev = every_iteration(ft, lp, c.block)
+                uses_item = any(strip_site(x) == strip_site(lp.item) for x in walk(c.args[1]))
+                early = [(b, s2) for b, s2 in lp.exits if b != lp.item_switch and ft.blocks[s2]["term"]["k"] != "unreachable"]
+                # early exits must leave the function with Err (the `?` on the projection), never continue with a short vector
+                bad_early = []
+                for b, s2 in early:
+                    reach = ft.cfg.reachable_from(s2)
+                    if any(c2.block in reach for c2 in ft.calls() if c2.callee and (c2.callee == NORM or c2.callee.endswith("Vec::push"))):
+                        bad_early.append((b, s2))
+                if not (ev and uses_item and not bad_early) or lp.source is None:
+                    why = "push loop into %s: every iteration pushes: %s, value derived from the element: %s, early exits that keep going: %s" % (key2, ev, uses_item, bad_early)
+                    break
+                stages.append("push-loop@%s" % key2)
+                t = lp.source
+                continue
+            why = "cannot follow the ring back through %s" % fmt(t)[:80]
+            break
+        run.inst("C11.B3", "ring-length-preserved", okc and why is None,
+                 "normalize_longitudes receives the split pentagon's vertices through %d element-wise stage(s) %s%s" % (len(stages), stages, "" if why is None else " - " + why), where(norm_calls[0].span))
+        run.floor("C11.B3", "map-like stages in cell_to_boundary", len(stages), 2)
     # normalize_longitudes is element-wise
     if NORM not in facts.fns:
         run.missing("C11.B3", NORM)
